@@ -88,10 +88,18 @@ def run(ctx, rep):
                 probs.append("source and destination index come from different bonds")
             for (_n, a2, st2, _t) in lst:
                 l2 = num_of(a2)
-                if l2 is None or not st2.entails(eq(l2 + Lin.const(1), Lin.var(s_) - Lin.var(d_))):
+                # each path has its own symbolic bond: take the src / dst terms of this path's argument
+                t2 = l2.terms() if l2 is not None else set()
+                s2_ = [t for t in t2 if isinstance(t, tuple) and t[0] == "attr" and t[2] == "src"]
+                d2_ = [t for t in t2 if isinstance(t, tuple) and t[0] == "attr" and t[2] == "dst"]
+                if len(s2_) != 1 or len(d2_) != 1 or s2_[0][1] != d2_[0][1]:
+                    probs.append("source and destination index come from different bonds")
+                    continue
+                sp, dp = s2_[0], d2_[0]
+                if l2 is None or not st2.entails(eq(l2 + Lin.const(1), Lin.var(sp) - Lin.var(dp))):
                     probs.append("emitted Q + 1 is not index(closing atom) - index(opening atom)")
                 # the symbol is emitted at the closing atom: the bond's source is the current atom, and src >= dst
-                if not st2.entails(ge(Lin.var(s_) - Lin.var(d_), 0)):
+                if not st2.entails(ge(Lin.var(sp) - Lin.var(dp), 0)):
                     probs.append("ring symbol may be emitted at the opening end (src < dst)")
             # decoder: target = m - (Q + 1) with m = index of the atom at which the symbol is read (the closing atom):
             # m - (Q + 1) = src - (src - dst) = dst
@@ -213,3 +221,97 @@ def run(ctx, rep):
            witness=None if ok else "atom tokens are not produced by atom_to_smiles")
     rep.floor("R3", 5)
     rep.floor("R4", 4)
+    check_explicit_bond_symbols(ctx, rep)
+    check_no_stale_acceptance(ctx, rep)
+
+
+def check_explicit_bond_symbols(ctx, rep):
+    """R6: the parser gives a bond the aromatic order 1.5 only on paths where no bond symbol was written for it --
+    for a ring closure, on neither of the two ring-digit tokens.  (An explicit symbol must decide the order: the
+    statement quantifies over 'explicit or implicit bond symbols' on either end of a ring closure.)"""
+    from fractions import Fraction
+    s2m = ctx.fn("selfies.utils.smiles_utils.smiles_to_mol")
+    s2b = ctx.fn("selfies.utils.smiles_utils.smiles_to_bond")
+    adders = {"add_bond", "add_ring_bond"}
+    funcs = []
+    for q in ctx.cg.region(s2m):
+        g = ctx.db.funcs[q]
+        callees = {h.qual if h.cls is None else h.cls.name + "." + h.name for s in ctx.cg.sites(g) for h in s.callees}
+        if s2b.qual in callees and any(c.startswith("MolecularGraph.") and c.split(".")[1] in adders for c in callees):
+            funcs.append(g)
+    if not funcs:
+        raise AnalysisError("no parser function both reads bond symbols (smiles_to_bond) and adds bonds")
+    n_arom = 0
+    for g in funcs:
+        events = []
+
+        class H(Hooks):
+            def opaque_call(self, eng, fr, node, callee, args, kwargs, st):
+                return callee is s2b
+
+            def on_call(self, eng, fr, node, callee, args, kwargs, st):
+                if callee is s2b and args:
+                    s2 = st.copy()
+                    s2.tags = st.tags + (("bondsym", vkey(args[0])),)
+                    n = next(eng.counter)
+                    return [(s2, Tup([Num(Lin.var(("order", n))), Unk(("stereo", n))]))]
+                if hasattr(callee, "cls") and callee.cls is not None and callee.cls.name == "SMILESToken":
+                    return [(st, Unk(("mcall", callee.name, tuple(vkey(a) for a in args))))]
+                if hasattr(callee, "cls") and callee.cls is not None and callee.cls.name == "MolecularGraph" and callee.name in adders:
+                    bound = eng.bind_args(callee, args[1:], kwargs, skip_self=True) or {}
+                    events.append((node, callee.name, bound, st))
+                    return [(st, Unk(eng.fresh("bond")))]
+                return None
+        eng = Engine(ctx, H())
+        eng.run_function(g, {})
+        agg = {}
+        for node, name, bound, st in events:
+            orders = [v for k, v in bound.items() if "order" in k]
+            arom = [v for v in orders if (isinstance(v, Num) and v.lin.is_const() and v.lin.k == Fraction(3, 2))
+                    or (isinstance(v, Con) and v.value == 1.5 and not isinstance(v.value, bool))]
+            if not arom:
+                continue
+            n_arom += 1
+            syms = [t[1] for t in st.tags if t[0] == "bondsym"]
+            probs = []
+            if not syms:
+                probs.append("aromatic order given without looking at the written bond symbol(s)")
+            for k in syms:
+                key = k[1] if k[0] == "unk" else k
+                if k == ("con", "None"):
+                    continue
+                if st.atoms.get(("isnone", key)) is not True:
+                    probs.append("order 1.5 is given although a bond symbol may have been written (%s)" % _short(k))
+            agg.setdefault(tuple(sorted(set(probs))), node)
+        for probs, node in agg.items():
+            rep.ob("R6", not probs, node, g, construct="aromatic order 1.5 in %s" % g.name, how="only on paths where every bond symbol of the bond is None",
+                   witness="; ".join(probs) or None, nontrivial=True, key="arom-implicit/%s/%s" % (g.name, "ok" if not probs else "explicit-symbol-ignored"))
+    if not n_arom:
+        raise AnalysisError("no aromatic (1.5) bond order is introduced by the parser functions %s" % [g.name for g in funcs])
+    rep.floor("R6", 2)
+
+
+def _short(k):
+    s = repr(k)
+    import re as _re
+    m = _re.search(r"'param', '[^']*', '(\w+)'", s)
+    return m.group(1) if m else s[:60]
+
+
+def check_no_stale_acceptance(ctx, rep):
+    """R7: acceptance under strict=True is judged against the table in force: every memo that reads the constraint
+    table (a memoised translator included) is cleared on every table change (shared with C06/Q4, C11/P4)."""
+    from sa.effects import Effects
+    from rules.shared import memo_readers, MemoFlow
+    eff = Effects(ctx)
+    setter, table_vars = eff.table_vars()
+    plain, selfkeyed = memo_readers(ctx, eff, table_vars)
+    mf = MemoFlow(ctx, eff, setter, rep, plain, table_vars)
+    mf.run(frozenset())
+    for o in rep.obs:
+        if o.rule == "G6":
+            o.rule = "R7"
+            o.key = o.key.replace("/G6/", "/R7/")
+            rep.counts["R7"] = rep.counts.get("R7", 0) + 1
+    rep.counts.pop("G6", None)
+    rep.floor("R7", 1)
